@@ -785,6 +785,9 @@ func runC10(c *Check, w *World) {
 						// a local array literal of hash constructors indexed by the algorithm
 						lt, _ := localFuncArray(tb, f, macT.Args[0])
 						if len(lt) == 0 {
+							lt, _ = globalFuncArray(w, macT.Args[0])
+						}
+						if len(lt) == 0 {
 							unknown = true
 						}
 						for _, name := range lt {
